@@ -120,6 +120,17 @@ def gen_tls():
     fail_restores = bool(re.search(r"conn->intf\s*=\s*old_intf\s*;", fail_branch))
     fail_frees = bool(re.search(r"tls_free\s*\(\s*conn->tls\s*\)\s*;\s*conn->tls\s*=\s*NULL\s*;", fail_branch))
     fail_sets_error = bool(re.search(r"conn->error\s*=\s*tls_error\s*\(", fail_branch))
+    cc = fn_body(c, "xmpp_connect_client")
+    m = re.search(r"if\s*\(([^{};]*domain\s*\[\s*0\s*\][^{};]*)\)\s*\{[^}]*?return\s+(\w+)\s*;", cc, re.S)
+    dom_cond = _norm(m.group(1)) if m else ""
+    refuses_empty = bool(m and re.search(r"domain\s*\[\s*0\s*\]\s*==\s*'\\0'", dom_cond))
+    refuses_dot = bool(m and re.search(r"domain\s*\[\s*0\s*\]\s*==\s*'\.'", dom_cond))
+    dom_rc_name = m.group(2) if m else "0"
+    if m:
+        mm = re.search(r"#\s*define\s+" + dom_rc_name + r"\s+(-?\d+)", src("../strophe.h"))
+        dom_rc = int(mm.group(1)) if mm else 0
+    else:
+        dom_rc = 0
     sec = fn_body(c, "xmpp_conn_is_secured")
     m = re.search(r"return\s+([^;]+);", sec)
     if not m:
@@ -176,6 +187,11 @@ def gen_tls():
           "    conn->error = tls_error(...) -/\n"
           "def failSetsTlsFailed : Bool := %s\ndef failRestoresInterface : Bool := %s\n"
           "def failFreesTls : Bool := %s\ndef failSetsError : Bool := %s\n"
+          "/-- xmpp_connect_client refuses a JID whose domain part is empty / starts with a dot (condition as\n"
+          "    written, what it returns) -/\n"
+          "def connectDomainCheck : String := %s\n"
+          "def connectRefusesEmptyDomain : Bool := %s\ndef connectRefusesDotDomain : Bool := %s\n"
+          "def connectDomainRc : Int := %d\n"
           "/-- xmpp_conn_is_secured returns -/\n"
           "def isSecuredExpr : String := %s\n"
           "/-- what the callers do when conn_tls_start fails: conn_established (legacy SSL),\n"
@@ -195,6 +211,7 @@ def gen_tls():
              codes["XMPP_EMEM"], codes["XMPP_EINVOP"], codes["XMPP_EINT"],
              b(ok_sets_secured), secured_elsewhere,
              b(fail_sets_failed), b(fail_restores), b(fail_frees), b(fail_sets_error),
+             _lean_str(dom_cond), b(refuses_empty), b(refuses_dot), dom_rc,
              _lean_str(secured_expr), _lean_str(legacy_on_fail), _lean_str(starttls_on_fail),
              _lean_str(teardown_err), teardown_val))
 
@@ -203,7 +220,7 @@ GENERATORS = [gen_tls]
 
 FINGERPRINTS = {
     "tls_openssl.c": ["tls_new", "_tls_verify", "tls_start", "tls_error", "tls_free"],
-    "conn.c": ["conn_tls_start", "xmpp_conn_is_secured", "conn_established", "xmpp_conn_tls_start",
+    "conn.c": ["xmpp_connect_client", "conn_tls_start", "xmpp_conn_is_secured", "conn_established", "xmpp_conn_tls_start",
                "xmpp_conn_set_certfail_handler", "xmpp_conn_set_cafile", "xmpp_conn_set_capath"],
     "auth.c": ["_handle_proceedtls_default"],
 }
